@@ -10,6 +10,8 @@
  *   fp <name> <psz> <eeps> <seps> <n> (u1*psz du*psz r*psz)*n <ustar*psz> <m>
  *        fixed-point preservation on the implementation: after n arbitrary calls, m calls at a fixed
  *        point (u1 = ustar, du = 0, r = 0): prints for each whether u1 is still ustar bit for bit
+ *   mt ...   a complete run of the real MTest on the mock behaviour under given solver options
+ *        (harness/C48/mtrun.hxx)
  */
 #include <iostream>
 
@@ -18,6 +20,7 @@
 #include "MTest/AccelerationAlgorithm.hxx"
 #include "MTest/AccelerationAlgorithmFactory.hxx"
 #include "C48/mock.hxx"
+#include "C48/mtrun.hxx"
 
 using namespace verif48;
 using Vector = tfel::math::vector<real>;
@@ -106,6 +109,8 @@ int main() {
         ans = op_acc(tk);
       } else if (op == "fp") {
         ans = op_fp(tk);
+      } else if (op == "mt") {
+        ans = op_mt(tk);
       } else {
         ans = "bad-op";
       }
